@@ -14,6 +14,7 @@ import dataclass_wizard as dw                                          # noqa: E
 from dataclass_wizard import (JSONWizard, EnvWizard, SkipIf, skip_if_field, json_field, json_key,   # noqa: E402
                               asdict, DumpMeta)
 from dataclass_wizard import models as dw_models                      # noqa: E402
+from dataclass_wizard.v1 import Alias as V1Alias                      # noqa: E402
 from dataclass_wizard.class_helper import is_builtin                  # noqa: E402
 from dataclass_wizard.utils import function_builder as fb             # noqa: E402
 
@@ -156,8 +157,10 @@ def class_source(c, ns, table):
         meta_kw['skip_if'] = mk_cond(meta['skip_if'], table, meta['skip_if'].get('wrap', False))
     if meta.get('skip_defaults_if') is not None:
         meta_kw['skip_defaults_if'] = mk_cond(meta['skip_defaults_if'], table, meta['skip_defaults_if'].get('wrap', False))
-    if base and meta_kw:
+    if base and (meta_kw or meta.get('v1')):
         lines.append('    class _(%s.Meta):' % base)
+        if meta.get('v1'):
+            lines.append('        v1 = True')
         for k, v in meta_kw.items():
             ns['M_' + k] = v
             lines.append('        %s = M_%s' % (k, k))
@@ -178,6 +181,10 @@ def class_source(c, ns, table):
         if not f['dump']:
             if f.get('dump_via') == 'annotated':
                 ann.append("json_key(%r, dump=False)" % f['name'])
+            elif f.get('dump_via') == 'v1_annotated':
+                ann.append("V1Alias(skip=True)")
+            elif f.get('dump_via') == 'v1_field':
+                call = 'V1Alias(skip=True'
             else:
                 call = 'json_field(%r, dump=False' % f['name']
         if cond is not None:
@@ -249,7 +256,7 @@ def run_case(c):
     table = {}
     ns = {'dataclasses': dataclasses, 'Annotated': Annotated, 'Any': Any, 'JSONWizard': JSONWizard,
           'EnvWizard': EnvWizard, 'SkipIf': SkipIf, 'skip_if_field': skip_if_field, 'json_field': json_field,
-          'json_key': json_key, '__name__': 'c11_gen'}
+          'json_key': json_key, 'V1Alias': V1Alias, '__name__': 'c11_gen'}
     reg0 = len(fb._VERIF_REGISTRY) if fb._VERIF_REGISTRY is not None else 0
     out = {}
     try:
